@@ -24,7 +24,20 @@ def poison_body(k, kind):
         return ["0 = N 0 0", "0 = N 5 0"]                       # forced first note
     if kind == 1:
         return ["900 = N 0 0", "100 = N 1 0"]                   # ticks running backwards across tempo changes
-    return ["900 = E solo", "10 = E soloend", "5 = N 0 0", "5 = N 5 0"]
+    if kind == 2:
+        return ["900 = E solo", "10 = E soloend", "5 = N 0 0", "5 = N 5 0"]
+    # odd but harmless content (unparsable lines are skipped): it must not matter either, selected or not - a skipped verdict
+    # when selected (the section is "poisoned" for the verdict), a full one when it is not
+    h2 = ALL_HEADERS[(7 * k + kind) % len(ALL_HEADERS)]
+    if kind == 3:
+        return ["10 = N 0 0", "  }", "20 = N 1 0", "\t}", "30 = N 2 0"]                 # padded closing braces are body lines
+    if kind == 4:
+        return ["} ", "10 = N 0 0", " {", "{ ", "20 = N 1 0"]
+    if kind == 5:
+        return ["10 = N 0 0", "  }", f"[{h2}]", "  {", "0 = N 4 0", "3 = N 3 0"]             # looks like another section, padded
+    if kind == 6:
+        return ["0 = B 1", "0 = TS 1", "Resolution = 1", '0 = E "section x"', "[Song]", "Offset = 9", "10 = N 0 0"]
+    return ["", "   ", "\t", "10 = N 0 0", "", "  ", "20 = N 1 0"]
 
 
 def build(headers, bodies):
@@ -42,18 +55,22 @@ def _track_digests(chart):
     return out
 
 
-def sel_record(r, cid, present, poison, want, form="list"):
+def sel_record(r, cid, present, poison, want, form="list", kinds=3):
     """present / poison: concrete headers; want: None or list of concrete headers (may be absent ones)."""
     idx = {h: k for k, h in enumerate(sorted(set(present) | set(want or [])))}
     bodies, ref_bodies = {}, {}
     for h in present:
         if h in poison:
-            bodies[h] = poison_body(idx[h], r.randrange(3))
+            bodies[h] = poison_body(idx[h], r.randrange(kinds))
             ref_bodies[h] = benign_body(idx[h], variant=5)       # arbitrary OTHER content in the reference
         else:
             bodies[h] = ref_bodies[h] = benign_body(idx[h])
     text = build(present, bodies)
     ref_text = build(present, ref_bodies)
+    return record_from_texts(cid, text, ref_text, present, poison, want, form)
+
+
+def record_from_texts(cid, text, ref_text, present, poison, want, form="list"):
     w = None
     if want is not None:
         pairs = [HEADER_KEY[h] for h in want]
@@ -78,6 +95,7 @@ def sel_record(r, cid, present, poison, want, form="list"):
         rec["meta"], rec["sync"], rec["glob"] = observe.digest(o["meta"]), observe.digest(o["sync"]), observe.digest(o["global"])
         for h, d in _track_digests(val).items():
             rec["tr"].append({"h": h, "d": d, "ref": refd.get(h, "absent-in-unrestricted-parse")})
+    rec["ref_text"], rec["form"] = ref_text, form
     return rec, text
 
 
@@ -118,7 +136,7 @@ def run(ctx):
             pool = present + r.sample(ALL_HEADERS, 3)
             want = r.sample(pool, r.randrange(0, len(pool) + 1))
             want = list(dict.fromkeys(want))
-        rec, text = sel_record(r, f"s{k}", present, poison, want, form=r.choice(forms))
+        rec, text = sel_record(r, f"s{k}", present, poison, want, form=r.choice(forms), kinds=8)
         recs.append(rec)
         texts[rec["id"]] = text
         ctx.evaluations += 1
@@ -129,7 +147,8 @@ def run(ctx):
         ctx.violation(clause, {"kind": "sel", "record": rec, "text": texts[rid]}, key=clause)
     ctx.exhaustive = True
     ctx.assumptions += [
-        "poison bodies make their own section's parser raise ValueError (forced first note, ticks running backwards across tempo changes)",
+        "poison bodies make their own section's parser raise ValueError (forced first note, ticks running backwards across tempo changes) "
+        "or, in the seeded charts, are odd but harmless content (padded brace lines, header look-alikes, lines of other sections, blank lines)",
         "the reference for 'identical to an unrestricted parse' is the unrestricted parse of the same file with the poison bodies replaced by other valid content",
     ]
 
@@ -138,6 +157,9 @@ def replay(ctx, obj):
     rec = obj["record"]
     r = rng("C13-replay")
     want = None if rec["want"][0] == "none" else rec["want"][1]
-    rec2, text = sel_record(r, rec["id"], rec["present"], set(rec["poison"]), want)
+    if "ref_text" in rec and "text" in obj:
+        rec2, text = record_from_texts(rec["id"], obj["text"], rec["ref_text"], rec["present"], set(rec["poison"]), want, rec.get("form", "list"))
+    else:
+        rec2, text = sel_record(r, rec["id"], rec["present"], set(rec["poison"]), want)
     for rid, p, clause in ctx.validate([rec2]):
         ctx.violation(clause, {"kind": "sel", "record": rec2, "text": text})
